@@ -16,7 +16,7 @@ def run():
     if prop in SOLVER:
         from . import check_solver as m
 
-        return m.replay_scenario(prop, replay) if replay else m.main(prop)
+        return m.replay_scenario(prop, replay) if replay else m.main_and_finish(prop)
     if prop in ("C16", "C13"):
         from . import check_config as m
 
